@@ -1,6 +1,7 @@
 //! verif-harness: drives the real Rust core (built from a scratch copy of /repo/sc62015/core)
 //! through its public API.  One case per stdin line, one answer line per case.
 mod exec_cmd;
+mod irq_cmd;
 mod kbd_cmd;
 mod lcd_cmd;
 mod mem_cmd;
@@ -27,6 +28,7 @@ fn handle(words: &[&str]) -> String {
         Some("sched") => sched_cmd::run(&words[1..]),
         Some("mem_rs") => mem_cmd::run(&words[1..]),
         Some("exec1") => exec_cmd::run(&words[1..]),
+        Some("irq") => irq_cmd::run(&words[1..]),
         Some("exec_split") => exec_cmd::run_split(&words[1..]),
         Some("asynccpu") => sched_cmd::run_cpu(&words[1..]),
         Some(c) => format!("ERR unknown-command {c}"),
